@@ -180,8 +180,16 @@ func getObjPrototype() *Value {
 				Tag: ValueNativeFn,
 				NativeFn: func(e *Evaluator, v []*Value, this *Value) (*Value, error) {
 					newObj := NewObject()
+					if this == nil || this.Tag != ValueObj {
+						return &newObj, nil
+					}
+
+					// only pluck the object's own members, not the prototype's
+					own := *this
+					own.Proto = nil
+
 					for _, value := range v {
-						val, err := this.GetMember(*value)
+						val, err := own.GetMember(*value)
 						if err != nil {
 							return nil, err
 						}
